@@ -42,7 +42,7 @@ func structName(t types.Type) string {
 		t = p.Elem()
 	}
 	if n, ok := t.(*types.Named); ok {
-		return n.Obj().Name()
+		return canonTypeName(n)
 	}
 	return ""
 }
